@@ -5,6 +5,8 @@ import abc
 
 import attr
 
+from cryptodatahub.common.exception import InvalidValue
+
 from cryptoparser.common.parse import ParsableBase, ParserBinary, ComposerBinary
 from cryptoparser.common.exception import NotEnoughData
 
@@ -32,15 +34,21 @@ class SshRecordBase(ParsableBase):
         parser = ParserBinary(parsable)
 
         parser.parse_numeric('packet_length', 4)
+        if parser['packet_length'] < 1:
+            raise InvalidValue(parser['packet_length'], cls, 'packet_length')
         if parser['packet_length'] > parser.unparsed_length:
             raise NotEnoughData(parser['packet_length'] - parser.unparsed_length)
         parser.parse_numeric('padding_length', 1)
 
-        parser.parse_parsable('packet', cls._get_variant_class())
+        payload_length = parser['packet_length'] - parser['padding_length'] - 1
+        if payload_length < 0:
+            raise InvalidValue(parser['padding_length'], cls, 'padding_length')
+        parser.parse_raw('payload', payload_length)
+        packet = cls._get_variant_class().parse_exact_size(parser['payload'])
 
         parser.parse_raw('padding', parser['padding_length'])
 
-        return cls(packet=parser['packet']), parser.parsed_length
+        return cls(packet=packet), parser.parsed_length
 
     def compose(self):
         body_composer = ComposerBinary()
